@@ -83,6 +83,14 @@ def gen_cases(tier, seed):
             "storage": rnd.choice(["deep", "flat", "gzip", "sharded", "sharded"]),
             "strategy": rnd.choice(["on disk", "in memory"]),
             "vseed": rnd.randrange(2 ** 32)})
+    # directed: chunks of more than 2^20 voxels (target chunk size 128)
+    for k in range(1 if tier == "quick" else 4):
+        cases.append({"mode": "generated", "size": [rnd.choice([258, 261]), 131, 130],
+                      "resolution": [1, 1, 1], "target": 128, "max_scales": None,
+                      "method": ["average", "stride"][k % 2], "outside": 0.0,
+                      "dtype": ["uint8", "uint16"][k % 2], "channels": 1,
+                      "encoding": "raw", "storage": "flat", "strategy": "on disk",
+                      "vseed": rnd.randrange(2 ** 32)})
     # directed: isotropic volumes (cubic chunks at every level) on sharded storage
     for k in range(6 if tier == "quick" else 40):
         cases.append({"mode": "generated", "size": [rnd.randint(5, 40) for _ in range(3)],
@@ -191,6 +199,7 @@ def run_case(case):
     except Exception as exc:  # noqa: BLE001
         return {"violations": [{"kind": "scale-generator-raised",
                                 "detail": f"{ctx}: {type(exc).__name__}: {exc}"}], "obs": obs}
+    obs["chunks_over_2_20_voxels"] = int(case["target"] >= 128)
     obs["default_chunk_size_three_scales"] = int(case["target"] == 64
                                                  and len(info["scales"]) >= 3)
     keys = [s["key"] for s in info["scales"]]
@@ -404,6 +413,7 @@ def gates(obs, tier):
         "sharded_storage": obs.get("storage", {}).get("sharded", 0) > 0,
         "refused_transitions_seen": obs.get("transitions_refused", 0) > 0,
         "all_methods": len(obs.get("methods", {})) == 4,
+        "chunks_beyond_2_20_voxels": obs.get("chunks_over_2_20_voxels", 0) > 0,
         "default_chunk_size_with_three_scales": obs.get(
             "default_chunk_size_three_scales", 0) > 0,
         "downscale_contract_evaluated": ce.get("downscale", 0) > 1000,
